@@ -152,6 +152,7 @@ var c03Coef = []float64{0.5, 2, -1, 0.25}
 
 func checkC03(w *Worker) {
 	w.appInit()
+	var balCheck func(x *Exec, mode, single, pass int, el string, book absBook, lg absLog, names []string, qty map[string]*big.Rat)
 	body := func(universe []string, pickSubset func(x *Exec) []int, passes int) func(x *Exec) {
 		return func(x *Exec) {
 			mode := x.Choose(len(balModes), "input:mode")
@@ -201,27 +202,34 @@ func checkC03(w *Worker) {
 				}
 				book = append(book, r)
 			}
+			if single == 1 && len(idxs)%2 == 0 {
+				// X itself logged directly on even passes of even subsets
+				lg[0].Entries = append(lg[0].Entries, absIng{"X", 3})
+				names = append(names, "X")
+				qty["X"] = rat(3)
+			}
+			balCheck(x, mode, single, pass, "X", book, lg, names, qty)
+		}
+	}
+	// balCheck: one balance run (mode, all foods or a single element el) on book + log, where names are the distinct
+	// logged foods and qty their summed quantities, against the reference tree
+	balCheck = func(x *Exec, mode, single, pass int, el string, book absBook, lg absLog, names []string, qty map[string]*big.Rat) {
+		{
 			amounts := map[string]*big.Rat{}
 			args := []string{"--no-color", "bal"}
 			args = append(args, balModes[mode].Args...)
 			var wantTotal *big.Rat
 			if single == 1 {
-				args = append(args, "-s", "X")
-				// X itself logged directly on even passes of even subsets
-				if len(idxs)%2 == 0 {
-					lg[0].Entries = append(lg[0].Entries, absIng{"X", 3})
-					names = append(names, "X")
-					qty["X"] = rat(3)
-				}
+				args = append(args, "-s", el)
 				wantTotal = new(big.Rat)
 				res := refResolve(book)
 				for _, n := range names {
 					if els, ok := res[n]; ok {
-						if c, has := els["X"]; has {
+						if c, has := els[el]; has {
 							amounts[n] = new(big.Rat).Mul(qty[n], c)
 							wantTotal.Add(wantTotal, amounts[n])
 						}
-					} else if n == "X" {
+					} else if n == el {
 						amounts[n] = qty[n]
 						wantTotal.Add(wantTotal, amounts[n])
 					}
@@ -270,7 +278,7 @@ func checkC03(w *Worker) {
 					kind := "wrong-tree"
 					if single == 1 {
 						for _, n := range present {
-							if n == "X" {
+							if n == el {
 								kind = "directly-logged-element-not-counted"
 							}
 						}
@@ -344,8 +352,8 @@ func checkC03(w *Worker) {
 						top.Add(top, v)
 					}
 				}
-				if got.Total != f2(wantTotal) || got.TotalEl != "X" {
-					viol("wrong-grand-total", fmt.Sprintf("grand total %s %s, expected %s X (sum of top-level rows %s)", got.Total, got.TotalEl, f2(wantTotal), f2(top)))
+				if got.Total != f2(wantTotal) || got.TotalEl != el {
+					viol("wrong-grand-total", fmt.Sprintf("grand total %s %s, expected %s "+el+" (sum of top-level rows %s)", got.Total, got.TotalEl, f2(wantTotal), f2(top)))
 				}
 			} else if got.HasTotal {
 				viol("unexpected-grand-total", "grand total printed without -s")
@@ -355,6 +363,30 @@ func checkC03(w *Worker) {
 			}
 		}
 	}
+	// every special scenario whose amounts are exact (harness/specials.go): all foods and the elements cal and fat
+	var c03Specials []specialScenario
+	for _, sc := range specialScenarios() {
+		if sc.Exact && sc.Name != "repeated-heading-in-the-book" {
+			c03Specials = append(c03Specials, sc)
+		}
+	}
+	w.Explore("special-scenarios", ExploreOpts{ShardDepth: 3}, func(x *Exec) {
+		mode := x.Choose(len(balModes), "input:mode")
+		which := x.Choose(3, "input:single") // all foods, -s cal, -s fat
+		sc := c03Specials[x.Choose(len(c03Specials), "input:scenario")]
+		var names []string
+		qty := map[string]*big.Rat{}
+		for _, d := range sc.Log {
+			for _, e := range d.Entries {
+				if qty[e.Name] == nil {
+					qty[e.Name] = new(big.Rat)
+					names = append(names, e.Name)
+				}
+				qty[e.Name].Add(qty[e.Name], rat(e.Val))
+			}
+		}
+		balCheck(x, mode, btoi(which > 0), 0, []string{"", "cal", "fat"}[which], sc.Book, sc.Log, names, qty)
+	})
 	// a tree whose report crosses the 4096-byte output buffer: all 120 paths of depth <= 4 over 3 segments minus
 	// every third (so that chains, forks and leaves of every kind occur), exotic segment names included
 	uniBig := pathUniverse([]string{"a&b", "c d", "ел"}, 4)
